@@ -50,4 +50,4 @@ def run(run, P):
                         run.violation('R-ATTR-FLAGS', f['name'], ev['loc'], 'flag-field-crossed:%s' % role,
                                       'under the test of %s%s the variable %s is (re)assigned, but that variable is what is stored into attr->%s: the copy decision for one '
                                       'string is taken from the flag of the other' % (PREFIX, role.upper(), short(t['l']), '/'.join(sorted(flds))), [])
-    run.require(n >= 2 or run.fixture_mode, 'R-ATTR-FLAGS: fewer than 2 copy decisions under the attribute release flags found')
+    run.require_count(n >= 2 or run.fixture_mode, 'R-ATTR-FLAGS: fewer than 2 copy decisions under the attribute release flags found')
